@@ -268,14 +268,20 @@ func mapReduceWithPanicChan[T, U, V any](source <-chan T, panicChan *onceChan, m
 	collector := make(chan U, options.workers)
 	// if done is closed, all mappers and reducer should stop processing
 	done := make(chan struct{})
+	// output is closed by whoever finishes first, while the reducer might be writing to it
+	var outputLock sync.RWMutex
 	writer := newGuardedWriter(options.ctx, output, done)
+	writer.closeLock = &outputLock
 	var closeOnce sync.Once
 	// use atomic type to avoid data race
 	var retErr errorx.AtomicError
 	finish := func() {
 		closeOnce.Do(func() {
+			// closing done makes the writer in progress give up, then it's safe to close output
 			close(done)
+			outputLock.Lock()
 			close(output)
+			outputLock.Unlock()
 		})
 	}
 	cancel := once(func(err error) {
@@ -362,6 +368,9 @@ type guardedWriter[T any] struct {
 	ctx     context.Context
 	channel chan<- T
 	done    <-chan struct{}
+	// closeLock is not nil if channel can be closed while writing,
+	// the channel must be closed with the write lock held, and after done closed.
+	closeLock *sync.RWMutex
 }
 
 func newGuardedWriter[T any](ctx context.Context, channel chan<- T, done <-chan struct{}) guardedWriter[T] {
@@ -373,11 +382,24 @@ func newGuardedWriter[T any](ctx context.Context, channel chan<- T, done <-chan 
 }
 
 func (gw guardedWriter[T]) Write(v T) {
+	if gw.closeLock != nil {
+		gw.closeLock.RLock()
+		defer gw.closeLock.RUnlock()
+	}
+
 	select {
 	case <-gw.ctx.Done():
 	case <-gw.done:
 	default:
-		gw.channel <- v
+		if gw.closeLock == nil {
+			gw.channel <- v
+			return
+		}
+
+		select {
+		case gw.channel <- v:
+		case <-gw.done:
+		}
 	}
 }
 
